@@ -276,9 +276,10 @@ Definition defp (c : config) : Prop := b_defc (c_b c) = b_def (c_b c).
 (* Commit copies the globals *)
 Definition glob_ok (c : config) : Prop := forall g, c_globold c = Some g -> g = c_glob c.
 
-(* what an inline reload loaded is also a rendering of the current state *)
+(* what haproxy loaded last is also a rendering of the current state - unless a reload sits
+   in the reload queue *)
 Definition run_inv (e : env) (s : inst) : Prop :=
-  inline e = true -> c_globold (i_cfg s) <> None ->
+  (inline e = true \/ i_pending s = false) -> c_globold (i_cfg s) <> None ->
   exists r, i_running s = Some r /\ no_high_shards e r /\ shards_inv e (i_cfg s) r /\ disk_inv e (i_cfg s) r.
 
 (* every state a history reaches: either the files are known, or the last update failed.
@@ -1300,7 +1301,9 @@ Proof.
     unfold good, mk_inst. cbn [i_cfg i_disk i_failed i_clean i_running i_pending].
     repeat (split; [solve [auto using clean_commit]|]).
     split; [|split; [cbn; discriminate|apply front_c_fmaps]].
-    intros Inl _. rewrite Inl, NS. eexists. split; [reflexivity|]. split; auto.
+    intros Inl _.
+    assert (Inl' : inline e = true) by (destruct Inl as [Inl|Inl]; auto; destruct (inline e); [reflexivity|discriminate]).
+    rewrite Inl', NS. eexists. split; [reflexivity|]. split; auto.
 Qed.
 
 (* ================================================================ whatever happens: the shape of the result *)
@@ -1493,7 +1496,7 @@ Lemma good_running_ok : forall e s, shard_range e -> good e s -> inline e = true
   exists r, i_running s = Some r /\ disk_ok e (i_cfg s) r.
 Proof.
   intros e s SR [D [_ [_ [_ [_ [_ [_ [_ [_ [Rn [Go Fo]]]]]]]]]]] Inl.
-  destruct (Rn Inl Go) as [r [Hr [NHr [Shr Ir]]]]. exists r. split; auto. apply inv_disk_ok; auto.
+  destruct (Rn (or_introl Inl) Go) as [r [Hr [NHr [Shr Ir]]]]. exists r. split; auto. apply inv_disk_ok; auto.
 Qed.
 
 (* ================================================================ histories *)
@@ -1597,4 +1600,12 @@ Proof.
   rewrite R. destruct (step e (run e inst_empty h) l) as [s' err] eqn:S. cbn in E. subst err. cbn [fst].
   rewrite run_nofault in S.
   destruct (success_is_convergence e SR (nofault h) Wh l [] s' Wl eq_refl S) as [_ [D _]]. exact D.
+Qed.
+
+(* what haproxy has loaded, when no reload is waiting in the reload queue *)
+Lemma good_loaded_ok : forall e s, shard_range e -> good e s -> (inline e = true \/ i_pending s = false) ->
+  exists r, i_running s = Some r /\ disk_ok e (i_cfg s) r.
+Proof.
+  intros e s SR [D [_ [_ [_ [_ [_ [_ [_ [_ [Rn [Go Fo]]]]]]]]]]] P.
+  destruct (Rn P Go) as [r [Hr [NHr [Shr Ir]]]]. exists r. split; auto. apply inv_disk_ok; auto.
 Qed.
